@@ -350,17 +350,18 @@ func (a *Omni) byzVoteFor(leaderMsg *bft.Message, phase lib.Phase, leader int) {
 // aggregate builds a certificate from the votes known for tmpl plus (optionally) all Byzantine keys.
 func (a *Omni) aggregate(tmpl *lib.QuorumCertificate, withByz bool, only map[int]bool) (*lib.QuorumCertificate, uint64) {
 	k := payloadKey(tmpl)
-	mk := a.s.ValSet.MultiKey.Copy()
+	root := tmpl.Header.RootHeight
+	mk := a.s.ValSetAt(root).MultiKey.Copy()
 	var power uint64
 	add := func(i int, sig []byte) {
 		if only != nil && !only[i] && !a.isByz(i) {
 			return // `only` restricts which observed honest votes are used; Byzantine keys always sign
 		}
-		if en, _ := mk.SignerEnabledAt(i); en {
+		if en, _ := mk.SignerEnabledAt(a.s.PosAt(i, root)); en {
 			return
 		}
-		if err := mk.AddSigner(sig, i); err == nil {
-			power += a.s.Cfg.Powers[i]
+		if err := mk.AddSigner(sig, a.s.PosAt(i, root)); err == nil {
+			power += a.s.PowerAt(i, root)
 		}
 	}
 	if vs := a.votes[k]; vs != nil {
@@ -411,7 +412,7 @@ func (a *Omni) AfterPhase(i int, handled lib.Phase) {
 	lp, _ := r.ctl.LoadLastProposers(0)
 	for _, b := range a.byz {
 		sd := &lib.SortitionData{LastProposerAddresses: lp.Addresses, RootHeight: v.RootHeight, Height: v.Height, Round: v.Round,
-			TotalValidators: a.s.ValSet.NumValidators, TotalPower: a.s.ValSet.TotalPower, VotingPower: a.s.Cfg.Powers[b]}
+			TotalValidators: a.s.ValSetAt(v.RootHeight).NumValidators, TotalPower: a.s.ValSetAt(v.RootHeight).TotalPower, VotingPower: a.s.PowerAt(b, v.RootHeight)}
 		_, vrf, isCand := bft.Sortition(&bft.SortitionParams{SortitionData: sd, PrivateKey: a.s.Keys[b]})
 		if !isCand {
 			continue
@@ -444,7 +445,7 @@ func (a *Omni) onVoteToByz(m int, msg *bft.Message, vs *voteSet) {
 	if ls.m != m {
 		return
 	}
-	thr := a.s.ValSet.MinimumMaj23
+	thr := a.s.ValSetAt(h.RootHeight).MinimumMaj23
 	switch h.Phase {
 	case bft.ElectionVote:
 		if ls.proposed {
